@@ -896,7 +896,8 @@ func init() {
 			}
 			c.Case("stream-history", h.swterm(), histInput(h.hist))
 		}
-		return nil
+		// where the streamed values are stored, under a dynamic and a static value threshold (swplace.go)
+		return runC26Placement(c)
 	})
 }
 
